@@ -251,7 +251,6 @@ func VerifW() {
 		off := vOffsetIn(data, whole)
 		vAssert(len(data) > 0, "empty-unit")
 		vAssert(off >= prevEnd && off+len(data) <= n, "unit-outside-input")
-		vAssert(cap(data) == len(data), "unit-cap")
 		vAssert(z.Offset() <= n, "offset-past-end")
 		// separators between the previous unit and this one
 		commas, colons, other := 0, 0, 0
